@@ -26,7 +26,11 @@ static inline void cqv_mm_storel_epi64(void *p, __m128i v) { *(cqv_ll_u *)p = ((
 #error "job must define __SSE4_2__"
 #endif
 
-static void ghosts(void) { cqv_k = nondet_i64(); cqv_b = nondet_int(); cqv_old64 = nondet_i64(); cqv_acc32 = nondet_u32(); cqv_cnt = nondet_i64(); cqv_dict_n = nondet_size_t(); }
+/* CQV_FIX_B: the ghost stream number is fixed per job (one job per stream; together they cover every stream) */
+#ifndef CQV_FIX_B
+#define CQV_FIX_B nondet_int()
+#endif
+static void ghosts(void) { cqv_k = nondet_i64(); cqv_b = CQV_FIX_B; cqv_old64 = nondet_i64(); cqv_acc32 = nondet_u32(); cqv_cnt = nondet_i64(); cqv_dict_n = nondet_size_t(); }
 
 void h_sse_fill_def_levels(void) { ghosts(); carquet_sse_fill_def_levels(nondet_ptr(), nondet_i64(), (int16_t)nondet_int()); CQV_CANARY("returns"); }
 void h_sse_prefix_sum_i32(void) { ghosts(); carquet_sse_prefix_sum_i32(nondet_ptr(), nondet_i64(), nondet_i32()); CQV_CANARY("returns"); }
